@@ -5,6 +5,7 @@
 import SV.TxCache.ListProofs
 import SV.TxCache.ListsInvProofs
 import SV.TxCache.EvictPost
+import SV.TxCache.ReachableProofs
 namespace SV.Props.C04
 open SV SV.TxCache
 
@@ -60,5 +61,18 @@ theorem trim_partial (cfg : Config) (l : List Tx) (h : senderExceeded cfg l.drop
 theorem trim_incomplete_F3 :
     ∃ (cfg : Config) (l : List Tx), senderExceeded cfg (trim1 cfg l).1 = true ∧ (trim1 cfg l).1 ≠ trimAll cfg (l.length + 1) l :=
   trim1_incomplete_example
+
+/-- GLOBAL REFINEMENT (eviction disabled): after ANY history the per-sender lists are exactly those of the reference
+    `specLists` (SV.TxCache.ReachableProofs), which is written with ordered insertion, the one-step trim, "drop nonce ≤ n"
+    and the reference's own hash search only — it mentions neither `addTx` nor `removeTxByHash`; the hash index agrees
+    with the reference's search, so the `added` / `found` flags are determined by it as well -/
+theorem lists_equal_reference_after_any_history (U : Bytes → Tx) (cfg : Config) (ops : List Op)
+    (he : cfg.evictionEnabled = false) (hw : ∀ t, Op.add t ∈ ops → WfTx U t) (s : Bytes) :
+    (alookup s (ops.foldl applyOp (Pool.init cfg)).lists).getD [] = specLists cfg ops s :=
+  reachable_lists_eq_spec U cfg ops he hw s
+theorem hash_index_equals_reference_after_any_history (U : Bytes → Tx) (cfg : Config) (ops : List Op)
+    (he : cfg.evictionEnabled = false) (hw : ∀ t, Op.add t ∈ ops → WfTx U t) (k : Bytes) :
+    alookup k (ops.foldl applyOp (Pool.init cfg)).byHash = (specState cfg ops).find k :=
+  reachable_find_eq_spec U cfg ops he hw k
 
 end SV.Props.C04
